@@ -145,6 +145,33 @@ theorem value_eq_plain (p : Prog R) (hp : p.WellScoped) (hd : DivOK p) (h : Nat)
   obtain ⟨tseed, hinv, _⟩ := hall 0
   exact ⟨w, recs, hrun, fun k hk => (hinv.good k (by omega)).1⟩
 
+/-- **Comparing records is comparing the plain numbers.**  `==`/`!=` (`PartialEq`) and
+    `partial_cmp` — hence `< <= > >=`, the trait's default methods — of any two results of a run,
+    in every variable/constant pairing, give what the same comparison gives on the values of the
+    plain computation.  (Generic library code such as `softmax`'s maximum or a pivot test takes its
+    branches by these when the element type is `Record`.) -/
+theorem compare_eq_plain [NumOrd R] (p : Prog R) (hp : p.WellScoped) (hd : DivOK p) (h : Nat)
+    (env : Nat → R) (w0 : World R) (hw0 : Tape.WF (w0 h)) :
+    ∃ w recs, Prog.exec h env p w0 = (w, .ok recs) ∧
+      ∀ a b, a < p.length → b < p.length →
+        ((getRec recs a).eq (getRec recs b) w).1
+          = NumOrd.eq ((Prog.eval env p).getD a 0) ((Prog.eval env p).getD b 0) ∧
+        ((getRec recs a).partialCmp (getRec recs b) w).1
+          = numPartialCmp ((Prog.eval env p).getD a 0) ((Prog.eval env p).getD b 0) := by
+  obtain ⟨w, recs, hrun, hv⟩ := value_eq_plain p hp hd h env w0 hw0
+  refine ⟨w, recs, hrun, fun a b ha hb => ?_⟩
+  simp only [Rec.eq, Rec.partialCmp, hv a ha, hv b hb, and_self]
+
+/-- **Comparisons and `clone` have no tape effect.**  For *any* two records — constants,
+    variables, stale records, records of two different tapes (there is no `same_list` test, so no
+    panic either) — `==` and `partial_cmp` return the world unchanged; a `clone` is the same
+    number at the same position of the same tape (it is a value, no world is involved), and
+    `Display` shows the number. -/
+theorem compare_no_tape_effect [NumOrd R] (a b : Rec R) (w : World R) (render : R → String) :
+    (a.eq b w).2 = w ∧ (a.partialCmp b w).2 = w ∧ a.clone = a ∧
+    a.display render = render a.number :=
+  ⟨rfl, rfl, rfl, rfl⟩
+
 /-- **A result is a constant exactly when no variable contributed** (syntactic dependency,
     `Prog.deps`). -/
 theorem constant_iff_no_variable (p : Prog R) (hp : p.WellScoped) (hd : DivOK p) (h : Nat) (env : Nat → R)
